@@ -59,7 +59,19 @@ void muggle_sync_logger_log(
 	const char *format,
 	...)
 {
-	if (logger->lowest_log_level > level)
+	// cheap early-out: nothing to do unless some attached handler accepts this
+	// level. Handler levels are live (muggle_log_handler_set_level), so ask the
+	// handlers instead of the lowest_log_level snapshot taken in add_handler
+	int accepted = 0;
+	for (int i = 0; i < logger->cnt; i++)
+	{
+		if (muggle_log_handler_should_write(logger->handlers[i], level))
+		{
+			accepted = 1;
+			break;
+		}
+	}
+	if (!accepted)
 	{
 		return;
 	}
